@@ -170,6 +170,7 @@ def rt_undirected(H, spec):
             a["edges"] = {str(e) for e in a["edges"]}
             a["members"] = {str(e): m for e, m in a["members"].items()}
             a["eattr"] = {str(e): m for e, m in a["eattr"].items()}
+            a["incidences(both sides)"] = {(t[0], str(t[1])) if t[0] != "NODE-SIDE-DISAGREES" else t for t in a["incidences(both sides)"]}
             if a != b:
                 bad("hypergraph-dict", f"standard dict round trip (string edge IDs): {_fd(a, b)}")
 
@@ -372,6 +373,9 @@ def family(tier):
             if eids is None:
                 continue
             items.append(("H", F.relabel(s, node_map=nm, edge_ids=eids)))
+        # IDs that are integers by value but not by type (equal to the automatic IDs as dictionary keys)
+        items.append(("H", F.relabel(s, edge_ids=[float(i) for i in range(m)])))
+        items.append(("H", F.relabel(s, edge_ids=[np.int64(m - i) for i in range(m)])))
     for w in F.wide():  # more than ten nodes and edges
         items.append(("H", w))
     for s in F.directed([1, 2, 3], 2 if q else 2, isolated=not q):
